@@ -84,6 +84,14 @@ class Check:
 		return index % self.nparts == self.part
 
 	def case(self, runner, spec, stratum=None):
+		if runner.startswith("foreign:"):
+			# replay of a witness found while running another property's workload under this property's observers
+			_, other, inner = runner.split(":", 2)
+			sub = self.foreign_check(other)
+			self._foreign_runner = runner
+			sub.case(inner, spec, stratum)
+			self.timeouts += sub.timeouts
+			return
 		fn = self.runners[runner]
 		self._cur = (runner, spec)
 		self.case_index += 1
@@ -153,6 +161,42 @@ class Check:
 	def observe(self, obj, origin=""):
 		for ob in self.observers:
 			ob(self, obj, origin)
+
+	# ------------------------------------------------- foreign workloads
+	def foreign_check(self, other_pid):
+		"""a sub-check that runs another property's workload; its own verdicts are dropped, every result it
+		observes is passed to THIS check's universal observers (the witness is the foreign case)"""
+		import importlib
+		mod = importlib.import_module(f"serifmon.props.{other_pid.lower()}")
+		sub = Check(other_pid, "quick", self.seed, self.part, self.nparts, runners=mod.RUNNERS, foreign=True)
+		sub.rng = random.Random(f"{self.pid}/foreign/{other_pid}/{self.seed}/{self.part}")
+		sub.funcs = self.funcs
+		main = self
+
+		def observe(obj, origin=""):
+			main.counters["foreign_observations:" + other_pid] += 1
+			prev = main._cur
+			if sub._cur is not None:
+				main._cur = (f"foreign:{other_pid}:{sub._cur[0]}", sub._cur[1])
+			try:
+				for ob in main.observers:
+					ob(main, obj, f"{other_pid}:{origin}")
+			finally:
+				main._cur = prev
+
+		sub.observe = observe
+		sub.fail = lambda *a, **k: None
+		sub.mod = mod
+		return sub
+
+	def run_foreign(self, other_pid):
+		sub = self.foreign_check(other_pid)
+		if hasattr(sub.mod, "setup_foreign"):
+			sub.mod.setup_foreign(sub)
+		sub.mod.run(sub)
+		self.timeouts += sub.timeouts
+		self.counters["foreign_cases:" + other_pid] += sub.case_index
+		return sub
 
 	def feed_digest(self, item, index=None):
 		"""results that must not depend on PYTHONHASHSEED, keyed by case so replicas can be compared case by case"""
